@@ -180,7 +180,7 @@ def run_db_case(case, client_wrap=None, server_wrap=None):
     return plan, trace, info
 
 
-_DB_CLIENT_GUARDS = ("mtu", "ordered", "svc", "inc", "chr", "dsc", "one", "all", "val")
+_DB_CLIENT_GUARDS = ("mtu", "ordered", "svc", "inc", "chr", "dsc", "one", "fil", "all", "val")
 _DB_LAYOUT_GUARDS = ("ordered", "laysvc", "layinc", "laychr", "laydsc")
 
 
